@@ -360,6 +360,44 @@ func c18Accounting(c *lib.Ctx, cs c18Case) []lib.Violation {
 	return nil
 }
 
+// c18Distinct: every ordered pair of different tag maps under the plain name m (only the pair whose second map
+// renders as onlyB when that is non-empty: replay).
+func c18Distinct(c *lib.Ctx, onlyB string) {
+	maps := c18TagMaps()[1:]
+	for _, a := range maps {
+		for _, b := range maps {
+			if tagString(a) == tagString(b) || (onlyB != "" && tagString(b) != onlyB) {
+				continue
+			}
+			col := metrics.NewCollector()
+			ca := col.Counter("m", a)
+			ca.Inc()
+			ca.Inc()
+			cb := col.Counter("m", b)
+			cb.Inc()
+			ha, hb := col.Histogram("h", a), col.Histogram("h", b)
+			ha.Observe(1)
+			hb.Observe(2)
+			hb.Observe(4)
+			c.Rep.Evaluations++
+			c.Count("distinct_identity_pairs", 1)
+			bad := ""
+			switch {
+			case ca == cb || ha == hb:
+				bad = "received the same metric"
+			case ca.Value() != 2 || cb.Value() != 1:
+				bad = fmt.Sprintf("counters read %d and %d after 2 and 1 increments", ca.Value(), cb.Value())
+			case ha.Count() != 1 || hb.Count() != 2 || ha.Sum() != 1 || hb.Sum() != 6:
+				bad = fmt.Sprintf("histograms report %d/%v and %d/%v after observations {1} and {2,4}", ha.Count(), ha.Sum(), hb.Count(), hb.Sum())
+			}
+			if bad != "" {
+				c.Violate(lib.Violation{Key: "identities-merged", What: fmt.Sprintf("two different identities, name m with tags {%s} and {%s}, %s", tagString(a), tagString(b), bad),
+					Case: c18Case{Kind: "distinct", Name: "m", Tags: a, Ops: []string{tagString(b)}}})
+			}
+		}
+	}
+}
+
 func c18Run(c *lib.Ctx) {
 	var idx int64
 	// identity
@@ -379,6 +417,10 @@ func c18Run(c *lib.Ctx) {
 				}
 			}
 		}
+	}
+	// different tag maps under one plain name are different series: events recorded for one never land in the other
+	if c.Shard == 1%c.NShards {
+		c18Distinct(c, "")
 	}
 	// monitor
 	depth := 3
@@ -450,7 +492,7 @@ func c18Run(c *lib.Ctx) {
 func init() {
 	lib.Register(&lib.Check{
 		ID: "C18", Level: "model_checking",
-		Rule:      "(identity) names {m, 'm:a=1', ''} x all 28 tag maps with <=3 tags over keys {a,b,c} and values {1,2} (plus nil and empty) x {counter, gauge, histogram, timer}: the metric is requested twice under EVERY assignment of iteration orders to the tag-map range points of the key computation (full DFS over the choice tree, all n! orders per point); both requests must return the same pointer, both events must land in it, GetAllMetrics must list one series. (monitor) every sequence of <=3 (quick) / <=5 (thorough) calls of RecordDatabaseOperation(load ok / load failed / save ok) and RecordSearchOperation(hit / miss / a hit that took no time and found nothing) and a load recorded with a negative duration, under every order assignment (cap 3000 schedules per sequence, reported): per-identity and total counts in the report equal the operations recorded, one series per identity. (accounting) every sequence of 4 (quick) / 6 (thorough) operations over {Inc, Add(3), Observe(0.125|0.0004|1.005|7|20000: binary fractions, values below and not a multiple of 1/1000, above the last bucket), Set(2.5), Reset}: counter, histogram count / exact sum / mean, gauge, percentile monotonicity and GetAllMetrics after every step. (concurrent) the collector scenarios of the schedule explorer: two goroutines creating the same new series + a third observing and listing (S5), three goroutines incrementing one counter / gauge (S9) under every interleaving with <=2 preemptions, monitored searches (S4) with <=1: same pointer, no lost increment, one series. states = cases; transitions = executions under distinct order assignments / schedules",
+		Rule:      "(identity) names {m, 'm:a=1', ''} x all 28 tag maps with <=3 tags over keys {a,b,c} and values {1,2} (plus nil and empty) x {counter, gauge, histogram, timer}: the metric is requested twice under EVERY assignment of iteration orders to the tag-map range points of the key computation (full DFS over the choice tree, all n! orders per point); both requests must return the same pointer, both events must land in it, GetAllMetrics must list one series; and every ordered pair of different tag maps under the plain name m are different series (different pointers, increments and observations do not leak). (monitor) every sequence of <=3 (quick) / <=5 (thorough) calls of RecordDatabaseOperation(load ok / load failed / save ok) and RecordSearchOperation(hit / miss / a hit that took no time and found nothing) and a load recorded with a negative duration, under every order assignment (cap 3000 schedules per sequence, reported): per-identity and total counts in the report equal the operations recorded, one series per identity. (accounting) every sequence of 4 (quick) / 6 (thorough) operations over {Inc, Add(3), Observe(0.125|0.0004|1.005|7|20000: binary fractions, values below and not a multiple of 1/1000, above the last bucket), Set(2.5), Reset}: counter, histogram count / exact sum / mean, gauge, percentile monotonicity and GetAllMetrics after every step. (concurrent) the collector scenarios of the schedule explorer: two goroutines creating the same new series + a third observing and listing (S5), three goroutines incrementing one counter / gauge (S9) under every interleaving with <=2 preemptions, monitored searches (S4) with <=1: same pointer, no lost increment, one series. states = cases; transitions = executions under distinct order assignments / schedules",
 		Assume:    []string{"only map ranges inside internal/metrics are explored here; dyadic observation values make the exact sum order-independent", "scheduling points = sync / atomic operations (build overlay shims); deeper bounds of the same scenarios run under C11"},
 		QuickSecs: 120, ThorSecs: 900, Graph: true,
 		Run: c18Run,
@@ -466,6 +508,19 @@ func init() {
 				return c18Monitor(c, cs, false)
 			case "accounting":
 				return c18Accounting(c, cs)
+			case "distinct":
+				if len(cs.Ops) == 1 {
+					cc := *c
+					cc.Rep = &lib.Report{Counters: map[string]int64{}}
+					c18Distinct(&cc, cs.Ops[0])
+					var out []lib.Violation
+					for _, v := range cc.Rep.Violations {
+						if cv, ok := v.Case.(c18Case); ok && tagString(cv.Tags) == tagString(cs.Tags) {
+							out = append(out, v)
+						}
+					}
+					return out
+				}
 			}
 			return nil
 		},
